@@ -1,1 +1,82 @@
-From TL Require Import Base.Base.
+(* C10 - Evaluation never panics: every failure is an error value.       *)
+(* Statements only; the proofs are in Proofs/EvalRel.v.                    *)
+From TL Require Import Base.Base Model.Reader Model.Printer Model.Store Model.Eval Model.Init.
+From TL Require Import Proofs.EvalRel.
+
+(* The model marks every partial operation of the Rust code that it        *)
+(* mirrors with an explicit Panic outcome: the unwrap()s and usize          *)
+(* subtractions of the reader, items.last_mut().unwrap() in set_unchecked  *)
+(* (dolist / dotimes).  Arithmetic is modelled as the checked i64           *)
+(* operations the repaired code uses; their overflow is Err ERange.        *)
+(* For every float oracle, text, state, fault point and fuel, no evaluation *)
+(* request reaches a Panic site: the outcome is a value, an error, or the   *)
+(* model's Fuel.                                                            *)
+Theorem C10_no_panic :
+  forall (F : fops) (fuel : nat) (t : text) (s s' : st) (r : res sx) (site : N),
+    eval_string F fuel t s = (r, s') -> r <> Panic site.
+Proof.
+  intros F fuel t s s' r site H E. subst r.
+  destruct (eval_string_inv F fuel t s _ s' H) as [_ N]; [discriminate|discriminate N].
+Qed.
+Print Assumptions C10_no_panic.
+
+Theorem C10_no_panic_file :
+  forall (F : fops) (fuel : nat) (n : text) (s s' : st) (r : res sx) (site : N),
+    eval_file F fuel n s = (r, s') -> r <> Panic site.
+Proof.
+  intros F fuel n s s' r site H E. subst r.
+  destruct (eval_file_inv F fuel n s _ s' H) as [_ N]; [discriminate|discriminate N].
+Qed.
+Print Assumptions C10_no_panic_file.
+
+(* every form, every call of every built-in with any argument list *)
+Theorem C10_no_panic_form :
+  forall (F : fops) (fuel : nat) (x : sx) (s s' : st) (r : res sx) (site : N),
+    run F fuel (TEval x) s = (r, s') -> r <> Panic site.
+Proof.
+  intros F fuel x s s' r site H E. subst r.
+  destruct (run_inv F fuel (TEval x) s _ s' H) as [_ N]; [discriminate|exact I|discriminate N].
+Qed.
+Print Assumptions C10_no_panic_form.
+
+Theorem C10_no_panic_call :
+  forall (F : fops) (fuel : nat) (p : prim) (args : sx) (s s' : st) (r : res sx) (site : N),
+    run F fuel (TCall true (Prim p) args) s = (r, s') -> r <> Panic site.
+Proof.
+  intros F fuel p args s s' r site H E. subst r.
+  destruct (run_inv F fuel _ s _ s' H) as [_ N]; [discriminate|exact I|discriminate N].
+Qed.
+Print Assumptions C10_no_panic_call.
+
+(* an outcome does not depend on how much fuel the model was given beyond  *)
+(* what it needs: the exclusion of Fuel above is not a loophole             *)
+Theorem C10_outcome_final :
+  forall (F : fops) (fuel fuel' : nat) (t : text) (s s' : st) (r : res sx),
+    eval_string F fuel t s = (r, s') -> r <> Fuel -> (fuel <= fuel')%nat ->
+    eval_string F fuel' t s = (r, s').
+Proof. intros. eapply eval_string_mono; eassumption. Qed.
+Print Assumptions C10_outcome_final.
+
+(* non-vacuity: failures of each kind are error values *)
+Definition F0 : fops :=
+  {| f_add := fun _ _ => 0%Z; f_sub := fun _ _ => 0%Z; f_mul := fun _ _ => 0%Z;
+     f_div := fun _ _ => 0%Z; f_rem := fun _ _ => 0%Z; f_pow := fun _ _ => 0%Z;
+     f_max := fun _ _ => 0%Z; f_min := fun _ _ => 0%Z; f_of_int := fun z => z;
+     f_to_int := fun z => z; f_round := fun z => z; f_trunc := fun z => z;
+     f_lt := Z.ltb; f_le := Z.leb; f_eq := Z.eqb; f_is_finite := fun _ => true;
+     f_to_dec := fun _ => []; f_of_dec := fun _ => None |}.
+Definition ev0 (p : string) := fst (eval_string F0 40 (s2t p) (init_state [] None)).
+Example C10_overflow : ev0 "(* 9223372036854775807 2)" = Err ERange.
+Proof. vm_compute. reflexivity. Qed.
+Example C10_mod_zero : ev0 "(mod 5 0)" = Err EUndef.
+Proof. vm_compute. reflexivity. Qed.
+Example C10_min_div : ev0 "(/ -9223372036854775808 -1)" = Err ERange.
+Proof. vm_compute. reflexivity. Qed.
+Example C10_dolist_body_error : ev0 "(dolist (x '(1 2)) (car 5))" = Err EType.
+Proof. vm_compute. reflexivity. Qed.
+Example C10_value : ev0 "(let ((x 2)) (dotimes (i 3) (setq x (* x x))) x)" = Ok (Int 256).
+Proof. vm_compute. reflexivity. Qed.
+
+Check C10_no_panic :
+  forall (F : fops) (fuel : nat) (t : text) (s s' : st) (r : res sx) (site : N),
+    eval_string F fuel t s = (r, s') -> r <> Panic site.
